@@ -75,9 +75,22 @@ def rv(x) -> z3.ArithRef:
     if isinstance(x, (int, np.integer)):
         return z3.RealVal(int(x))
     if isinstance(x, (float, np.floating)):
-        f = Fraction(float(x))
+        f = float_fraction(float(x))
         return z3.RealVal(f"{f.numerator}/{f.denominator}")
     raise TypeError(type(x))
+
+
+def float_fraction(x: float) -> Fraction:
+    """
+    The real number a float constant denotes.  A float that is within 2^-50 (relative) of a rational with
+    denominator <= 10^6 is read as that rational (1/12, 0.1, 1/3 are meant, not their binary roundings);
+    every other float is read exactly.  Stated in every evidence file as part of 'reals, not floats'.
+    """
+    f = Fraction(x)
+    g = f.limit_denominator(1000000)
+    if g == f or abs(g - f) <= abs(f) * Fraction(1, 2 ** 50):
+        return g
+    return f
 
 
 def _isnan(x) -> bool:
@@ -163,6 +176,10 @@ def mk_exp(arg):
 def mk_log(arg):
     """LOG with normalisation: LOG(EXP a)=a, LOG(ab)=LOG a+LOG b, LOG(a/b)=LOG a-LOG b, LOG(a^n)=n LOG a"""
     a = z3.simplify(arg)
+    if z3.is_add(a):
+        a2 = z3.simplify(a, som=True)
+        if not z3.is_add(a2):
+            a = a2
     if _is_app_of(a, EXP):
         return a.arg(0)
     if _is_num(a):
@@ -290,7 +307,7 @@ def _shadow_of(o):
         return Fraction(int(o))
     if isinstance(o, (float, np.floating)):
         f = float(o)
-        return Fraction(f) if math.isfinite(f) else f
+        return float_fraction(f) if math.isfinite(f) else f
     if isinstance(o, Fraction):
         return o
     raise TypeError(type(o))
@@ -326,11 +343,20 @@ class SReal:
     __str__ = __repr__
 
     # -- generic binary --
-    def _bin(self, o, ft, fv, swap=False):
+    def _bin(self, o, ft, fv, swap=False, kind=None):
         if isinstance(o, SBool):
             o = o.real()
-        if _isnan(o):
+        if o is None or _isnan(o):
+            # None stored in an object array plays the role NaN plays in a float array
             return float("nan")
+        if isinstance(o, (float, np.floating)) and math.isinf(o) and kind in ("add", "sub", "div"):
+            o = float(o)
+            if kind == "add":
+                return o
+            if kind == "sub":
+                return o if swap else -o
+            if kind == "div" and not swap:
+                return 0.0
         if isinstance(o, np.ndarray):
             return NotImplemented
         try:
@@ -345,13 +371,13 @@ class SReal:
             return SReal(ft(to, self.t), _sh(fv, vo, self.v))
         return SReal(ft(self.t, to), _sh(fv, self.v, vo))
 
-    def __add__(s, o): return s._bin(o, lambda a, b: a + b, lambda a, b: a + b)
-    def __radd__(s, o): return s._bin(o, lambda a, b: a + b, lambda a, b: a + b, True)
-    def __sub__(s, o): return s._bin(o, lambda a, b: a - b, lambda a, b: a - b)
-    def __rsub__(s, o): return s._bin(o, lambda a, b: a - b, lambda a, b: a - b, True)
+    def __add__(s, o): return s._bin(o, lambda a, b: a + b, lambda a, b: a + b, kind="add")
+    def __radd__(s, o): return s._bin(o, lambda a, b: a + b, lambda a, b: a + b, True, kind="add")
+    def __sub__(s, o): return s._bin(o, lambda a, b: a - b, lambda a, b: a - b, kind="sub")
+    def __rsub__(s, o): return s._bin(o, lambda a, b: a - b, lambda a, b: a - b, True, kind="sub")
     def __mul__(s, o): return s._bin(o, lambda a, b: a * b, lambda a, b: a * b)
     def __rmul__(s, o): return s._bin(o, lambda a, b: a * b, lambda a, b: a * b, True)
-    def __truediv__(s, o): return s._bin(o, lambda a, b: a / b, lambda a, b: a / b)
+    def __truediv__(s, o): return s._bin(o, lambda a, b: a / b, lambda a, b: a / b, kind="div")
     def __rtruediv__(s, o): return s._bin(o, lambda a, b: a / b, lambda a, b: a / b, True)
     def __neg__(s): return SReal(-s.t, _sh(lambda a: -a, s.v))
     def __pos__(s): return s
